@@ -202,8 +202,53 @@ HOLES = [
 BAD_EXPRS = ["1 ~= 2", "a ==", "== a", "a b c", "", "(1..", "a |", "1 2", "a,,b", "a[", "'unclosed", "a.", "&", "a == == b", "a: b: c", "not", "(a", ")"]
 
 
+def valid_variants():
+    """Valid templates that spell tag arguments in every accepted way (order, commas, trailing commas).
+
+    The strict-only checks in the argument parsers have a lenient twin in lax and warn mode; a template that
+    strict mode accepts must render the same in all three.
+    """
+    import itertools
+
+    loop_args = ["limit: 2", "offset: 1", "reversed"]
+    for tag, end, extra_arg in (("for", "endfor", None), ("tablerow", "endtablerow", "cols: 2")):
+        pool = loop_args + ([extra_arg] if extra_arg else [])
+        for n in range(0, len(pool) + 1):
+            for args in itertools.permutations(pool, n):
+                for lead, sep, trail in itertools.product(["", ","], [" ", ", ", " , "], ["", ","]):
+                    if not args and (lead or trail):
+                        continue
+                    yield "{% " + tag + " i in items" + lead + " " + sep.join(args) + trail + " %}{{ i }};{% " + end + " %}z"
+    kw = ["a: 1", "b: 'x'", "c: items"]
+    for tag in ("include", "render"):
+        for n in range(0, 4):
+            for args in itertools.permutations(kw, n):
+                for lead, sep, trail in itertools.product([",", ""], [", ", " , ", " "], ["", ","]):
+                    if not args and trail:
+                        continue
+                    yield "{% " + tag + " 'p'" + (lead + " " if args else "") + sep.join(args) + trail + " %}z"
+        for bind in ("with items[0]", "for items", "with items[0] as k", "for items as k"):
+            for tail in ("", ", a: 1", ", a: 1, b: 2", " a: 1"):
+                yield "{% " + tag + " 'p' " + bind + tail + " %}z"
+    for args in itertools.permutations(["1", "'x'", "a"], 3):
+        for sep in (", ", ",", " , "):
+            yield "{% cycle " + sep.join(args) + " %}{% cycle 'g': " + sep.join(args) + " %}z"
+    for vals in itertools.permutations(["1", "'x'", "a", "2"], 3):
+        for sep in (", ", " or ", ",", " , "):
+            yield "{% case a %}{% when " + sep.join(vals) + " %}hit{% else %}miss{% endcase %}z"
+    for f in ("replace: 'a', 'b'", "replace: 'a' , 'b'", "slice: 0, 2", "slice: 0,2", "default: 'd', allow_false: true", "default: 'd' , allow_false: true", "truncate: 5, '..'"):
+        yield "{{ a | " + f + " }}z"
+        yield "{% assign v = a | " + f + " %}{{ v }}z"
+        yield "{% echo a | " + f + " | upcase %}z"
+
+
 def _campaign(ctx: core.Ctx, tier: str, shard: int, nshards: int) -> None:
     idx = 0
+    vcfg = {"undefined": "default", "autoescape": False, "strict_filters": True, "extra": True, "loader": "dict", "ns": False, "flags": {}}
+    for src in valid_variants():
+        idx += 1
+        if idx % nshards == shard:
+            ctx.run({"cfg": vcfg, "src": src, "data": {"items": [1, 2, 3, 4], "a": "x"}, "mutations": ["argument-variant"]}, enumerated=True)
     base_cfg = {"undefined": "default", "autoescape": False, "strict_filters": True, "extra": True, "loader": "dict", "ns": False,
                 "flags": {"ternary_expressions": True, "logical_not_operator": True, "logical_parentheses": True}}
     for hole in HOLES:
@@ -229,7 +274,9 @@ def _finish_kwargs(ctx: core.Ctx, tier: str) -> dict:
         "rule": (
             "Valid generated templates, the same after 1-3 mutation operators (delete/duplicate/swap token, drop "
             "end tag, truncate, orphan else/elsif/when/break/end*, unknown tag, unbalanced delimiter, stray "
-            "lexeme), and token soup; only sources the lexer alone accepts are judged. Each is parsed and "
+            "lexeme), and token soup; a malformed expression in each of 36 tag positions; and 1493 valid templates "
+            "spelling the arguments of for, tablerow, include, render, cycle, when and filters in every order with "
+            "and without separating, leading and trailing commas; only sources the lexer alone accepts are judged. Each is parsed and "
             "rendered in STRICT, LAX and WARN. Non-trivial = mutated and STRICT fails (clauses i/ii), or STRICT "
             "succeeds with >= 2 tags (clause iii)."
         ),
